@@ -23,6 +23,11 @@ PROBE_U_BEYOND_END = {'mem': [0xAF, 0xC2, 0x06, 0x80, 0x18, 0xFE, 0xC3, 0xC9], '
 PROBE_RST_ARG_WALK = {'mem': [0xCF, 0x18, 0xC3, 0x02, 0x80], 'org': 32768, 'map': [32768, 32770], 'args': ['-r'], 'prog': {8: 1},
                       'sites': [(0, [0x18])]}
 
+# Candidate out:overlap-warning:text-in-code-splits-instruction (no code map): XOR A / 15 text characters of which the last, '>', is the
+# opcode of LD A,n / its operand C3 / RET / XOR A / RET.  The text found in the code block ends after the opcode 3E, the rest of the
+# block is made a code block that starts at the operand: 'c 30016' (JP 45001 = C3 C9 AF) runs into 'c 30018'.
+PROBE_TEXT_SPLITS_INSTRUCTION = {'mem': [0xAF] + list(b'<=-,+<=-,+<=-,>') + [0xC3, 0xC9, 0xAF, 0xC9], 'org': 30000, 'map': []}
+
 OPC = {(1, 0): [0x00], (1, 1): [0xC9], (2, 0): [0x3E, 0x01], (2, 1): [0x18, 0x00], (3, 0): [0x21, 0x34, 0x12], (3, 1): [0xC3, 0x00, 0x00]}
 
 
@@ -580,6 +585,93 @@ def rst_stats(c, sites, prog):
                 c['rst_sharp'] += 1     # .. that ends inside an executed instruction after the arguments
 
 
+# ---------------------------------------------------------------- images that end in the middle of an instruction
+# Multi-byte instructions of every prefix class (and the undefined slots, which the decoder sizes by other rules); each is cut
+# after each of its bytes (a) by the top of memory - the image ends at 65535, END is 65536 whether -e is given or not - and
+# (b) by an explicit -e below the top, where the rest of the instruction is there to be read.
+CUT_PATTERNS = ([0xDD, 0xCB, 0x05, 0x46], [0xFD, 0xCB, 0xFB, 0xC6], [0xDD, 0xCB, 0x00, 0x06], [0xFD, 0xCB, 0x7F, 0x00], [0xDD, 0xCB, 0x01, 0xFF],
+                [0xCB, 0x27], [0xCB, 0x46], [0xED, 0x43, 0x00, 0x5B], [0xED, 0x4B, 0x34, 0x12], [0xED, 0x44], [0xED, 0xB0], [0xED, 0x00],
+                [0xED, 0x45], [0xED, 0x77], [0xDD, 0x21, 0x34, 0x12], [0xFD, 0x21, 0x00, 0x40], [0xDD, 0x36, 0x05, 0x07], [0xFD, 0x36, 0xFE, 0xC9],
+                [0xDD, 0x2A, 0x00, 0x5B], [0xFD, 0x22, 0x00, 0x5B], [0xDD, 0x7E, 0x05], [0xFD, 0x46, 0x81], [0xDD, 0x34, 0x00], [0xDD, 0x09],
+                [0xFD, 0x23], [0xDD, 0xE9], [0xFD, 0xE9], [0xDD, 0x00], [0xFD, 0x3C], [0xDD, 0xDD, 0x21, 0x00, 0x40], [0xDD, 0xFD, 0x7E, 0x01],
+                [0xFD, 0xED, 0x44], [0xDD, 0xED, 0x43, 0x00, 0x5B], [0xC3, 0x00, 0x80], [0xCD, 0x00, 0x80], [0x21, 0x34, 0x12],
+                [0x01, 0xC9, 0xC9], [0x32, 0x00, 0x5B], [0xC2, 0x00, 0x80], [0x3E, 0x07], [0x18, 0xFE], [0x10, 0xFE], [0x20, 0x00], [0xD3, 0xFE],
+                [0x36, 0x00], [0xCF, 0x18], [0xCF, 0xC3, 0x00], [0xC9], [0x00])
+CUT_PREAMBLES = ([], [0x3E, 0x07, 0x04], [0x21, 0x00, 0x40, 0xC9], [0xDD, 0xCB])
+
+
+def cut_specs(rotate=None):
+    """Every (pattern, bytes kept 1..len, preamble, placement, code map, -r, -C) - deterministic, no random choice.
+    rotate = n: every (pattern, kept, placement, code map) with the first two preambles and one of the others, each with ONE of the
+    four -r/-C combinations; which ones depends on n."""
+    specs = []
+    for pi, pat in enumerate(CUT_PATTERNS):
+        for keep in range(1, len(pat) + 1):
+            for qi in range(len(CUT_PREAMBLES)):
+                if rotate is not None and qi >= 2 and (pi + keep + rotate) % 2 != qi % 2:
+                    continue            # (quick: one of the last two preambles per cut)
+                for place in ('top', 'top-no-e', 'below'):
+                    for mp in ('none', 'all', 'before'):
+                        if mp == 'before' and not CUT_PREAMBLES[qi]:
+                            continue
+                        for r in (0, 1):
+                            for cm in (0, 1):
+                                if rotate is None or (pi + keep + qi + len(place) + len(mp) + rotate) % 4 == 2 * r + cm:
+                                    specs.append((pi, keep, qi, place, mp, r, cm))
+    return specs
+
+
+def cut_cases(args):
+    """sna2ctl on images whose last instruction is cut by the top of memory / by END."""
+    specs, wd, wi = args
+    from ..lib import cbuild
+    cbuild.repo_only()
+    sub = os.path.join(wd, 't%d' % wi)
+    os.makedirs(sub, exist_ok=True)
+    signal.signal(signal.SIGVTALRM, _alarm)
+    out = []
+    for k, (pi, keep, qi, place, mp, r, cm) in enumerate(specs):
+        pat, pre = CUT_PATTERNS[pi], CUT_PREAMBLES[qi]
+        if place == 'below':
+            mem = pre + pat + [0xC9, 0x00, 0x3E]       # the image goes on after END
+            org = 40000
+            end = org + len(pre) + keep
+        else:
+            mem = pre + pat[:keep]
+            org = 65536 - len(mem)
+            end = 65536
+        start = org
+        full = [0] * 65536
+        full[org:org + len(mem)] = mem
+        binf = os.path.join(sub, 'i%d.bin' % k)
+        open(binf, 'wb').write(bytes(mem))
+        args_ = ['-o', str(org), '-s', str(start)] + ([] if place == 'top-no-e' else ['-e', str(end)])
+        # the code map of a straight-line run: the instructions of the preamble (+ the one that is cut)
+        mapaddrs, a = [], 0
+        while a < len(pre):
+            mapaddrs.append(org + a)
+            a += z80len.length(pre + pat + [0, 0, 0], a)
+        if a == len(pre) and mp == 'all':
+            mapaddrs.append(org + a)          # (a > len(pre): the preamble itself runs into the pattern)
+        fmt = ''
+        if mp == 'none' or not mapaddrs:
+            mapaddrs = []
+        else:
+            fmt = ('z80', 'specemu', 'rzxplay', 'fuse', 'spud')[(pi + keep + qi) % 5]
+            mapf = os.path.join(sub, 'm%d.map' % k)
+            write_map(mapf, fmt, mapaddrs)
+            args_ += ['-m', mapf]
+        if r:
+            args_.append('-r')
+        if cm:
+            args_.append('-C')
+        c = drive_out(sub, k, binf, args_, 1, start, end, mapaddrs, fmt, full, 'top' if end == 65536 else 'cut', org, mem)
+        c['cut_kept'] = ''.join('%02X' % b for b in pat[:keep])
+        c['cut_missing'] = len(pat) - keep
+        out.append(c)
+    return out
+
+
 def drive_out(sub, k, binf, args_, strict, start, end, mapaddrs, mapfmt, full, kind, org, mem, rstcfg=''):
     """sna2ctl on the image file binf with args_, then sna2skool + skool2bin on its output -> CtlCases record.  `image`, `org`,
     `map`, `mapfmt`, `args` (apart from the path after -m), `rstcfg` are the whole input: --replay.
@@ -685,5 +777,5 @@ def out_replay(wd, rp, mapfmt):
     full[org:org + len(mem)] = mem
     c = drive_out(wd, 0, binf, args_, rp['strict'], rp['start'], rp['end'], list(rp['map']), mapfmt, full, rp.get('image_kind', '?'), org, mem,
                   rp.get('rstcfg', ''))
-    c.update({k: v for k, v in rp.items() if k.startswith('rst_') and k not in c})         # (what the input is, see rst_stats)
+    c.update({k: v for k, v in rp.items() if k.startswith(('rst_', 'cut_')) and k not in c})         # (what the input is, see rst_stats)
     return c
